@@ -407,12 +407,16 @@ func runC18(r *simkit.Run, c Cfg) {
 			if tp.Chance(1, 2, "oddInput.first") {
 				addrs[0], addrs[1] = addrs[1], addrs[0]
 			}
-			if tp.Chance(1, 3, "oddInput.weakKey") {
+			switch tp.Choose(4, "oddInput.key?") {
+			case 0:
 				id, what, addrs = weakRSAIdentity(), "a 1024-bit RSA key", addrs[:0]
+				addrs = append(addrs, c09Addrs[0].s)
+			case 1:
+				id, what, addrs = mixedEd25519Identity(), "an Ed25519 key stored with another key's public half", addrs[:0]
 				addrs = append(addrs, c09Addrs[0].s)
 			}
 			mh := must(multihash.Sum(tp.Bytes(8, "oddInput.content"), multihash.SHA2_256, -1))
-			ingest := what != "a 1024-bit RSA key" || tp.Chance(1, 2, "oddInput.ingest")
+			ingest := strings.Contains(what, "address") || tp.Chance(1, 2, "oddInput.ingest")
 			var data []byte
 			var err error
 			if ingest {
@@ -610,4 +614,17 @@ func weakRSAIdentity() *Ident {
 		panic(err)
 	}
 	return &Ident{Name: "Vweak", Priv: priv, ID: must(peer.IDFromPublicKey(pub))}
+}
+
+// mixedEd25519Identity: an Ed25519 private key in libp2p's 64-byte form
+// whose first half is the seed of one key and whose second half is the
+// public key of another (libp2p does not check that they belong together
+// when it unmarshals one). The identity is that of the public half; the key
+// signs with the seed, so nothing it signs verifies.
+func mixedEd25519Identity() *Ident {
+	a, b := KeyedIdentity("ed25519", 1, "V1"), KeyedIdentity("ed25519", 2, "V2")
+	rawB := must(b.Priv.Raw())
+	rawPubA := must(a.Priv.GetPublic().Raw())
+	priv := must(crypto.UnmarshalEd25519PrivateKey(append(append([]byte{}, rawB[:32]...), rawPubA...)))
+	return &Ident{Name: "Vmixed", Priv: priv, ID: must(peer.IDFromPublicKey(priv.GetPublic()))}
 }
